@@ -73,9 +73,11 @@ class World:
         # strict_peer: getpeername()/shutdown() on a socket that has seen a hard fault raise ENOTCONN, as a reset
         # socket does (used by the server-level runs; the connection-level runs keep scripts independent of it)
         self.strict_peer = strict_peer
+        self.default_acc = None   # default_acc of every socket created from now on
 
     def new(self, **kw):
         s = FakeSock(self, len(self.socks), **kw)
+        s.default_acc = self.default_acc
         self.socks.append(s)
         return s
 
@@ -665,20 +667,44 @@ def _app(environ, start_response):
     return [b"ok"]
 
 
+REQ_FULL10 = b"GET /x HTTP/1.0\r\nHost: h\r\n\r\n"
+BIGCAP = 1 << 30
+_RESP_LEN = None
+
+
+def resp_len():
+    """length of the response the test application produces for one request (measured once on the real code;
+    the Date header has a fixed width)"""
+    global _RESP_LEN
+    if _RESP_LEN is None:
+        obs = run_idle((False, 0, [("conn", 1), ("svc",), ("req", 1), ("svc",), ("svc",)]))
+        _RESP_LEN = obs[-1][1][0][2]
+    return _RESP_LEN
+
+
 def run_idle(case):
     """case = (tls, tymeout, ops) with tymeout and tick amounts in UNITs; ops:
        ("conn", ca) | ("tick", d) | ("data", ca, n) n pad bytes of a never-finished request arrive
-       ("req", ca) a complete persistent HTTP/1.1 request arrives | ("svc",)
-    observation per op: (status, tuple(per connection in creation order: open?))  (open = still in servant.ixes and socket not closed)"""
+       ("req", ca) a complete persistent HTTP/1.1 request arrives | ("req10", ca) a complete non-persistent HTTP/1.0 request
+       ("cap", ca, k) from now on the connection's socket takes k bytes per send (0 = would block)
+       ("wind", t) the server is re-wound onto a tymist whose tyme is t | ("svc",)
+    observation per op: (status, per connection in creation order: (state, |txbs|, bytes the socket has accepted so far)),
+    state = pending | open (still in servant.ixes and socket not closed) | closed"""
     tls, tymeout, ops = case
     from hio.base import tyming
     from hio.core.http import serving as hserving
     clienting, serving, _, _ = classes()
     world = World()
+    world.default_acc = BIGCAP
     mod = _SockMod(world, tls=tls, ha=None)
     out = []
-    conns = {}   # ca -> fake socket (latest)
     order = []
+
+    def sock_of(ca):
+        for x in world.socks[1:]:
+            if x.ca == _ca(ca):
+                return x
+        return None
     with patched(serving, socket=mod), nowrap():
         tymist = tyming.Tymist(tyme=0.0, tock=UNIT)
         if tls:
@@ -686,6 +712,7 @@ def run_idle(case):
             server = hserving.Server(servant=servant, app=_app, port=PORT)
         else:
             server = hserving.Server(host="127.0.0.1", port=PORT, app=_app, tymeout=tymeout * UNIT)
+            servant = server.servant
         server.wind(tymist.tymen())
         if not server.reopen():
             raise core.Infra("fake listen socket failed to open")
@@ -694,25 +721,26 @@ def run_idle(case):
             k = op[0]
             st = "ok"
             if k == "conn":
-                n0 = len(world.socks)
-                lst.accepts.append((_ca(op[1]), [("acc", 1 << 30)] * 64, [], [("ok",)]))
+                lst.accepts.append((_ca(op[1]), [], [], [("ok",)]))
                 order.append(op[1])
-                conns[op[1]] = None
             elif k == "tick":
                 tymist.tick(tock=op[1] * UNIT)
-            elif k in ("data", "req"):
-                s = conns.get(op[1])
-                if s is None:   # find the socket accepted for this ca
-                    for x in world.socks[1:]:
-                        if x.ca == _ca(op[1]):
-                            s = conns[op[1]] = x
+            elif k == "wind":
+                tymist = tyming.Tymist(tyme=op[1] * UNIT, tock=UNIT)
+                st = _status(lambda: server.wind(tymist.tymen()))
+            elif k == "cap":
+                s = sock_of(op[1])
+                if s is not None and not s.closed:
+                    s.default_acc = op[2]
+            elif k in ("data", "req", "req10"):
+                s = sock_of(op[1])
                 if s is not None and not s.closed:
                     inhead = getattr(s, "inhead", False)
                     if k == "data":
                         s.recvs.append(("d", (b"" if inhead else REQ_HEAD) + b"a" * op[2]))
                         s.inhead = True
                     else:   # complete the request that is under way, or send a whole one
-                        s.recvs.append(("d", b"\r\nContent-Length: 0\r\n\r\n" if inhead else REQ_FULL11))
+                        s.recvs.append(("d", b"\r\nContent-Length: 0\r\n\r\n" if inhead else (REQ_FULL11 if k == "req" else REQ_FULL10)))
                         s.inhead = False
             elif k == "svc":
                 st = _status(server.service)
@@ -720,17 +748,21 @@ def run_idle(case):
                 raise core.Infra(f"bad op {op!r}")
             snap = []
             for ca in order:
-                s = None
-                for x in world.socks[1:]:
-                    if x.ca == _ca(ca):
-                        s = x
+                s = sock_of(ca)
                 if s is None:
-                    snap.append("pending")
+                    snap.append(("pending", 0, 0))
+                elif (_ca(ca) in servant.ixes or (tls and _ca(ca) in servant.cxes)) and not s.closed:
+                    rm = servant.ixes.get(_ca(ca))
+                    snap.append(("open", len(rm.txbs) if rm is not None else 0, len(s.kacc)))
                 else:
-                    snap.append("open" if (_ca(ca) in server.servant.ixes or (tls and _ca(ca) in servant.cxes)) and not s.closed else "closed")
+                    snap.append(("closed", 0, len(s.kacc)))
             out.append((st, tuple(snap)))
         server.close()
     return tuple(out)
+
+
+def strip_idle(obs):
+    return tuple((st, tuple(e[:2] for e in snap)) for st, snap in obs)
 
 
 # --------------------------------------------------------------------------
@@ -1252,8 +1284,8 @@ def run_real_life(case):
 
 
 def run_real_idle(case):
-    """C12 over real loopback sockets (plain): same case format and observation as run_idle; `open` means the PEER has not
-    seen EOF and the server still lists the connection"""
+    """C12 over real loopback sockets (plain): same case format (without cap) and observation as run_idle; `open` means the
+    PEER has not seen EOF and the server still lists the connection; the third column is the number of bytes the peer received"""
     tls, tymeout, ops = case
 
     def go():
@@ -1263,9 +1295,28 @@ def run_real_idle(case):
         server = None
         peers = {}
         eof = {}
+        got = {}
         inhead = {}
+        listed_once = set()
         order = []
         out = []
+
+        def drain(ca_i, wait):
+            p = peers[ca_i]
+            for _ in range(16):
+                if eof[ca_i] or not wait_readable(p, wait):
+                    return
+                try:
+                    d = p.recv(65536)
+                except BlockingIOError:
+                    continue
+                except ConnectionResetError:
+                    d = b""
+                if not d:
+                    eof[ca_i] = True
+                    return
+                got[ca_i] += len(d)
+                wait = 0.0
         try:
             for _ in range(6):
                 port = free_port()
@@ -1283,15 +1334,20 @@ def run_real_idle(case):
                 if k == "conn":
                     peers[op[1]] = raw_peer(port)
                     eof[op[1]] = False
+                    got[op[1]] = 0
                     order.append(op[1])
                 elif k == "tick":
                     tymist.tick(tock=op[1] * UNIT)
-                elif k in ("data", "req"):
+                elif k == "wind":
+                    tymist = tyming.Tymist(tyme=op[1] * UNIT, tock=UNIT)
+                    st = _status(lambda: server.wind(tymist.tymen()))
+                elif k in ("data", "req", "req10"):
                     p = peers.get(op[1])
                     ca = p.getsockname() if p is not None and not eof[op[1]] else None
                     if ca is not None and ca in server.servant.ixes:
                         ih = inhead.get(op[1], False)
-                        msg = ((b"" if ih else REQ_HEAD) + b"a" * op[2]) if k == "data" else (b"\r\nContent-Length: 0\r\n\r\n" if ih else REQ_FULL11)
+                        msg = ((b"" if ih else REQ_HEAD) + b"a" * op[2]) if k == "data" else \
+                            (b"\r\nContent-Length: 0\r\n\r\n" if ih else (REQ_FULL11 if k == "req" else REQ_FULL10))
                         inhead[op[1]] = (k == "data")
                         try:
                             p.send(msg)
@@ -1300,32 +1356,22 @@ def run_real_idle(case):
                             pass
                 elif k == "svc":
                     st = _status(server.service)
+                elif k == "cap":
+                    raise core.Infra("cap is not available on real sockets")
                 snap = []
                 for ca_i in order:
                     p = peers[ca_i]
-                    listed = p.getsockname() in server.servant.ixes if not eof[ca_i] else False
-                    if not eof[ca_i] and not listed and ca_i in seen_listed:
-                        # the server dropped it: the peer must see EOF (bytes of a response may come first)
-                        for _ in range(8):
-                            if not wait_readable(p, 1.0):
-                                break
-                            try:
-                                d = p.recv(65536)
-                            except BlockingIOError:
-                                continue
-                            except ConnectionResetError:
-                                d = b""
-                            if not d:
-                                eof[ca_i] = True
-                                break
+                    listed = (not eof[ca_i]) and p.getsockname() in server.servant.ixes
                     if listed:
-                        seen_listed.add(ca_i)
-                    if ca_i not in seen_listed:
-                        snap.append("pending")
+                        listed_once.add(ca_i)
+                    # a dropped connection must show EOF at the peer; response bytes may come first
+                    drain(ca_i, 1.0 if (ca_i in listed_once and not listed) else 0.0)
+                    if ca_i not in listed_once:
+                        snap.append(("pending", 0, 0))
                     elif listed:
-                        snap.append("open")
+                        snap.append(("open", len(server.servant.ixes[p.getsockname()].txbs), got[ca_i]))
                     else:
-                        snap.append("closed" if eof[ca_i] else "dropped-but-socket-open")
+                        snap.append(("closed" if eof[ca_i] else "dropped-but-socket-open", 0, got[ca_i]))
                 out.append((st, tuple(snap)))
             return tuple(out)
         except OSError as ex:
@@ -1340,12 +1386,7 @@ def run_real_idle(case):
                     pass
             if server:
                 server.close()
-    seen_listed = set()
-
-    def wrapped():
-        seen_listed.clear()
-        return go()
-    return with_retries(wrapped)
+    return with_retries(go)
 
 
 def run_real_client(case):
